@@ -1,4 +1,5 @@
 import CollectionsC.Proofs.DequeCross
+import CollectionsC.Proofs.DequeZipSelf
 /-! # C07 (deque part) — iterators traverse completely and in order; one-step mutation is safe
 
 The C cursor `(index, last_removed)` of `CC_DequeIter`/`CC_DequeZipIter` is compared with the ideal cursor
@@ -627,6 +628,33 @@ theorem zip_program_refines_sched_partial (ops : List ZOp) (it : Iter) (d1 d2 : 
     rw [s2, s3, s4] at r1 r2 r3 r4
     rw [htr.1, htr.2] at r7
     exact ⟨by rw [s1, r1], r2, r3, r4, r5, r6, memSame2_trans r7 s7⟩
+
+/-! ## the same deque on both sides of the zip iterator -/
+
+/-- **zip over one and the same deque** (`d1 == d2`): `next` yields each element paired with itself; `replace`
+and `remove` refine the self-zip cursor (one sequence threaded through both halves: the second value stays /
+the yielded element and its successor go, and on the last element the second out-value is not written);
+`add` keeps invariant and ledger at every cursor position.  What `add` does *not* guarantee under a refusal
+is `C08Deque.zip_alias_add_swallows_refusal`. -/
+theorem zip_same_deque (it : Iter) (d : Deque) (x y : Nat) (m : Mem) (hi : d.Inv) :
+    (it.index < d.size → (zipNext it d d m).2.1 = (d.abs[it.index]?).map fun v => (v, v)) ∧
+    ((zipReplaceSelf it d x y m).1 = (DequeSpec.zipReplaceSelf d.abs it.cur x y).1 ∧
+      (zipReplaceSelf it d x y m).2.2.2.1.abs = (DequeSpec.zipReplaceSelf d.abs it.cur x y).2.2.2 ∧
+      (zipReplaceSelf it d x y m).2.2.2.1.Inv ∧ (zipReplaceSelf it d x y m).2.2.2.2 = m) ∧
+    ((zipRemoveSelf it d m).1 = (DequeSpec.zipRemoveSelf d.abs it.cur).1 ∧
+      (zipRemoveSelf it d m).2.1 = (DequeSpec.zipRemoveSelf d.abs it.cur).2.1 ∧
+      (zipRemoveSelf it d m).2.2.1 = (DequeSpec.zipRemoveSelf d.abs it.cur).2.2.1 ∧
+      (zipRemoveSelf it d m).2.2.2.2.1.abs = (DequeSpec.zipRemoveSelf d.abs it.cur).2.2.2.1 ∧
+      (zipRemoveSelf it d m).2.2.2.1.cur = (DequeSpec.zipRemoveSelf d.abs it.cur).2.2.2.2 ∧
+      (zipRemoveSelf it d m).2.2.2.2.1.Inv ∧ (zipRemoveSelf it d m).2.2.2.2.2 = m) ∧
+    ((zipAddSelf it d x y m).2.2.1.Inv ∧ memSame d.triple (zipAddSelf it d x y m).2.2.2 m) := by
+  obtain ⟨r1, _, _, r4, r5, r6⟩ := zipReplaceSelf_spec it d x y m hi
+  obtain ⟨a1, a2, _⟩ := zipAddSelf_safe it d x y m hi
+  refine ⟨fun h => ?_, ⟨r1, r4, r5, r6⟩, zipRemoveSelf_spec it d m hi, ⟨a1, a2⟩⟩
+  have hl : it.index < d.abs.length := by simpa using h
+  rw [((zip_lockstep it d d m hi hi).1 ⟨h, h⟩).2.1, List.getElem?_eq_getElem (by simp; omega),
+    List.getElem?_eq_getElem hl]
+  simp
 
 /-- non-vacuity: a wrapped, exactly full ring is traversed completely -/
 example : (drain (Deque.mk 4 4 3 3 [12, 13, 14, 11] .conf) 4 {} {}).1 = [11, 12, 13, 14] := by decide
